@@ -279,7 +279,7 @@ class LargeMissing(Component):
     rule = ">=10 000 pairs with a missing side, or a side with both missing and present values"
 
     def examples(self, tier):
-        return 8 if tier == "quick" else 60
+        return 10 if tier == "quick" else 200
 
     def strategy(self, tier):
         return large_missing_case(tier)
